@@ -407,16 +407,27 @@ fn run_face_parse(input: &Value) -> Case {
     let r = catch(move || Face::from_str(&s2).map_err(|e| e.to_string()));
     let mut tbl = vec![];
     face_oracle(&s, &mut tbl);
+    // what the parser produced, printed and parsed again
+    let (printed, reparsed) = match &r {
+        Some(Ok(f)) => {
+            let p = f.to_string();
+            face_oracle(&p, &mut tbl);
+            let p2 = p.clone();
+            (p, catch(move || Face::from_str(&p2).map_err(|e| e.to_string())))
+        }
+        _ => (String::new(), Some(Err(String::new()))),
+    };
     let (rc, rj) = coq_fres(&r);
+    let (pc, pj) = coq_fres(&reparsed);
     let mut j = input.clone();
-    j["impl"] = rj;
+    j["impl"] = json!({"parsed": rj, "printed": printed, "reparsed": pj});
     let res = match &r {
         None => "panic",
         Some(Err(_)) => "err",
         Some(Ok(_)) => "ok",
     };
     Case {
-        coq: format!("CFaceParse {} {} {}", coq_str(&s), coq_ftbl(&tbl), rc),
+        coq: format!("CFaceParse {} {} {} {} {}", coq_str(&s), coq_ftbl(&tbl), rc, coq_str(&printed), pc),
         json: j,
         tags: vec!["kind=face_parse".to_string(), format!("face_parse={}", res)],
         nontrivial: s.len() > 1,
@@ -985,7 +996,7 @@ const COLORS: [&str; 8] = ["red", "#ff0000", "#00ff0080", "#fff", "nocolor", "",
 
 fn gen_face_str(rng: &mut Rng) -> String {
     let mut parts: Vec<String> = vec![];
-    let n = rng.below(4);
+    let n = rng.below(6);
     for _ in 0..n {
         let c: &str = *rng.pick(&COLORS[..]);
         parts.push(match rng.below(14) {
@@ -994,7 +1005,7 @@ fn gen_face_str(rng: &mut Rng) -> String {
             2 => format!(" fg = {} ", c),
             3 => "bold".to_string(),
             4 => "underline".to_string(),
-            5 => "underline_curly".to_string(),
+            5 => (*rng.pick(&["underline_double", "underline_curly", "underline_dotted", "underline_dashed", "blink", "reverse"])).to_string(),
             6 => " italic ".to_string(),
             7 => String::new(),
             8 => "strike".to_string(),
